@@ -1,6 +1,10 @@
 """C17 — prefix bindings stay a consistent two-way map and compact IRIs expand back.  DESIGN §6 C17.
 
-Case = {"cfg": "memory"|"simple"|"dataset"|"foreign", "bn": "none"|"core"|"rdflib", "bn1": …,
+Case = {"cfg": "memory"|"simple"|"dataset"|"foreign"|"aggregate", "bn": "none"|"core"|"rdflib", "bn1": …,
+        ("aggregate": the graph under test is a ReadOnlyGraphAggregate — a Graph-like front end with its OWN store and
+         manager — over "members": [[[prefix, ns]…]…] graphs that carry bindings of their own (same prefixes, other
+         namespaces); its namespaces() / qname / compute_qname / expand_curie must talk about ONE table, the aggregate's;
+         bind goes through its manager (Graph.bind is refused), parses and documents through manager 1, a Graph on its store)
         ("foreign": the graph's namespace_manager belongs to a graph on ANOTHER store — "via": "ctor"
          Graph(namespace_manager=…) | "setter" g.namespace_manager = …; "fstore"/"own": kinds of the manager's
          store and of the graph's own store; listing, lookups and qname must all talk about the manager's store)
@@ -42,7 +46,7 @@ import warnings
 import core  # noqa: F401
 import c17_tables
 from rdflib import Dataset, Graph, Literal, Namespace, URIRef
-from rdflib.graph import DATASET_DEFAULT_GRAPH_ID
+from rdflib.graph import DATASET_DEFAULT_GRAPH_ID, ReadOnlyGraphAggregate
 from rdflib.namespace import NamespaceManager
 from rdflib.plugins.stores.memory import Memory, SimpleMemory
 import rdflib.namespace as _N
@@ -63,7 +67,7 @@ RULE = ("random histories (3-18 ops) of bind (override x replace, None/empty/und
         "of a dataset whose graphs go through two managers, refused bind_namespaces modes, stateless split_uri / is_ncname probes "
         "over all of Unicode and block-wise comparison of the whole category table; Memory, SimpleMemory and Dataset; one "
         "or two managers on the store, and graphs that borrow the manager of a graph on another store (constructor argument "
-        "or setter); bind_namespaces none/core/rdflib.  non-trivial = some bind met an already bound "
+        "or setter), and a ReadOnlyGraphAggregate (own store and manager) over member graphs with bindings of their own; bind_namespaces none/core/rdflib.  non-trivial = some bind met an already bound "
         "prefix or namespace and a later qname-family call returned a prefixed name; distinct = distinct histories")
 ASSUMPTIONS = ["unicodedata.category of the running Python = Tables.lean (regenerated for all of Unicode on every run; the "
                "compiled lookup is compared with unicodedata on every code point, block by block, in every run)",
@@ -245,7 +249,7 @@ def gen_case(rng, tier, i):
 def _gen_case(rng, tier, i):
     if rng.random() < 0.12:
         return gen_collision_case(rng)
-    cfg = _w(rng, [("memory", 4), ("simple", 3), ("dataset", 3), ("foreign", 2)])
+    cfg = _w(rng, [("memory", 4), ("simple", 3), ("dataset", 3), ("foreign", 2), ("aggregate", 2)])
     bn = _w(rng, [("none", 55), ("core", 30), ("rdflib", 15)])
     two = rng.random() < 0.35
     bn1 = "rdflib" if cfg == "dataset" else _w(rng, [("none", 6), ("core", 3), ("rdflib", 1)])
@@ -359,6 +363,13 @@ def _gen_case(rng, tier, i):
     case = {"cfg": cfg, "bn": bn, "bn1": bn1, "vp": vp, "vn": vn, "ops": ops}
     if cfg == "foreign":
         case.update(_foreign_fields(rng))
+    if cfg == "aggregate":
+        for op in ops:  # a read-only aggregate cannot be parsed into or given triples: those go through manager 1
+            if op[0] in ("parse", "parsexml", "ser", "serdoc", "serxml"):
+                op[1] = 1
+        # member graphs with bindings of their own: the case's prefixes, bound differently in each member
+        case["members"] = [[[p, rng.choice(vn)] for p in rng.sample(vp, min(len(vp), rng.randint(1, 3))) if " " not in p]
+                           for _ in range(rng.randint(1, 3))]
     return case
 
 
@@ -557,6 +568,16 @@ class Impl:
         if self.cfg == "dataset":
             self.store = Memory()
             self.ds = Dataset(store=self.store)
+        elif self.cfg == "aggregate":
+            self.members = []
+            for j, binds in enumerate(case["members"]):
+                mg = Graph(bind_namespaces=["rdflib", "core", "none"][j % 3])
+                for p, n in binds:
+                    mg.bind(p, URIRef(n))
+                mg.add((URIRef("http://members.example/s%d" % j), URIRef("http://members.example/p"), Literal(j)))
+                self.members.append(mg)
+            self.agg = ReadOnlyGraphAggregate(self.members)
+            self.store = self.agg.store  # the aggregate's own store: the table the property talks about
         elif self.cfg == "foreign":
             self.store = mk(case["fstore"])  # the manager's store: the table the property talks about
             self.own = mk(case["own"])       # the graph's own store: never bound to
@@ -573,6 +594,9 @@ class Impl:
             else:
                 self.g[1] = self.ds.default_context
                 self.g[1].namespace_manager  # created here, with the default "rdflib" set
+        elif self.cfg == "aggregate" and m == 0:
+            self.agg.namespace_manager = NamespaceManager(self.agg, bind_namespaces=bn)
+            self.g[0] = self.agg
         elif self.cfg == "foreign" and m == 0:
             self.owner = Graph(store=self.store, bind_namespaces=bn)
             nm = self.owner.namespace_manager
@@ -727,7 +751,8 @@ class Impl:
         if kind == "bind":
             _k, _m, p, n, ov, rp = op
             nsv = [n, URIRef(n), Namespace(n)][self.k % 3]
-            (g if alt else nm).bind(p, nsv, override=ov, replace=rp)
+            # (a read-only aggregate refuses Graph.bind: its bindings are made through its manager)
+            (g if alt and not isinstance(g, ReadOnlyGraphAggregate) else nm).bind(p, nsv, override=ov, replace=rp)
             return "ok", None
         if kind == "cq":
             r = (g if alt else nm).compute_qname(URIRef(op[2]), op[3])
@@ -841,6 +866,8 @@ def run_impl(case):
     stats = {"ops": len(case["ops"]), "cfg_" + case["cfg"]: 1, "bn_" + case["bn"]: 1}
     if case["cfg"] == "foreign":
         stats["foreign_" + case["via"]] = 1
+    if case["cfg"] == "aggregate":
+        stats["aggregate_members_%d" % len(case["members"])] = 1
     rebound = False
     nontrivial = False
     for k, op in enumerate(steps(case)):
@@ -961,6 +988,13 @@ def shrink(case):
         yield {**case, "bn": "none"}
     if case["cfg"] != "memory":
         yield {**case, "cfg": "memory", "bn1": "none"}
+    if case["cfg"] == "aggregate":
+        ms = case["members"]
+        for j in range(len(ms)):
+            if len(ms) > 1:
+                yield {**case, "members": ms[:j] + ms[j + 1:]}
+            for t in range(len(ms[j])):
+                yield {**case, "members": ms[:j] + [ms[j][:t] + ms[j][t + 1:]] + ms[j + 1:]}
     for i, op in enumerate(ops):
         if op[0] not in _STATELESS and op[1] == 1:
             yield {**case, "ops": ops[:i] + [[op[0], 0] + op[2:]] + ops[i + 1:]}
